@@ -455,7 +455,7 @@ class _DArr(np.ndarray):
 
 CORD_ABC = {"CORD2R": [[1.5, -2.25, 0.0], [1.5, -2.25, 10.0], [4.0, 0.5, 1e-30]],
             "CORD2C": [[0.0, 0.0, 0.0], [0.0, 0.0, 1.0], [1.0, 0.0, 0.0]],
-            "CORD2S": [[-3.0e5, 12.5, 7.0e-4], [2.0, 2.0, 2.0], [0.125, -8.0, 1.0e3]]}
+            "CORD2S": [[-2.0e6, 12.5, 1.25e-4], [2.0, 2.0, 2.0], [0.125, -8.0, 1.0e3]]}   # 10 decades between the largest and the smallest component: both fit the field
 
 
 def coord_fn(name):
@@ -510,6 +510,11 @@ def replay_coord(p):
     cards = b.rdcards(io.StringIO(f.getvalue()), name.lower(), return_var="list", keep_name=True, blank=0)
     if not cards or len(cards[0]) != 12 or cards[0][1] != cid or cards[0][2] != rid:
         return True, "wtcoordcards(%s %d referring to system %d) is read back by rdcards as %s" % (name, cid, rid, cards[0][:3] if cards else cards)
+    flat = [v for row in CORD_ABC[name] for v in row]
+    big = max(abs(v) for v in flat)
+    for k, (got, want) in enumerate(zip(cards[0][3:], flat)):
+        if not (abs(float(got) - want) <= 1e-8 * abs(want) or (abs(want) < big * 1e-15 and float(got) == 0.0)):
+            return True, "wtcoordcards(%s, points %s): %s[%d] = %r is read back by rdcards as %r" % (name, CORD_ABC[name], "ABC"[k // 3], k % 3, want, got)
     return False, "CORD2x card fine on the real code"
 
 
